@@ -13,6 +13,14 @@ still there.
 namespace VibeProof.C20
 open VibeProof.BinCodec VibeProof.Generated
 
+theorem safe_readTemporal (k : TKind) : Safe (readTemporal k) := by
+  unfold readTemporal
+  refine Safe.bind Safe.readString (fun s => ?_)
+  split
+  · exact Safe.pure _
+  · exact Safe.fail _
+  · exact Safe.fail _
+
 theorem safe_readBody (t : Tag) : Safe (readBody t) := by
   cases t <;> unfold readBody <;>
     first
@@ -21,6 +29,7 @@ theorem safe_readBody (t : Tag) : Safe (readBody t) := by
     | exact Safe.bind (Safe.uN _) (fun _ => Safe.pure _)
     | exact Safe.bind Safe.readString (fun _ => Safe.pure _)
     | exact Safe.bind Safe.rbool (fun _ => Safe.pure _)
+    | exact safe_readTemporal _
 
 /-- **T2/T3 for values.** `read_sql_value` on arbitrary bytes -/
 theorem C20_readValue_safe : Safe readValue := by
